@@ -329,9 +329,8 @@ err_t btokBAuthCTStep2(octet out[], const bake_cert* certt, void* state)
 	qrTo(out + no, ecY(Vct, n), s->ec->f, stack);
 	memSetZero(hdr, 16);
 	qrTo((octet*)K, ecX(K), s->ec->f, stack);
-	beltKWPWrap(out + 2 * no, s->R, no / 2, hdr, (octet*)K, 32);
-	// все нормально
-	return ERR_OK;
+	// все нормально?
+	return beltKWPWrap(out + 2 * no, s->R, no / 2, hdr, (octet*)K, 32);
 }
 
 static size_t btokBAuthCTStep2_deep(size_t n, size_t f_deep, size_t ec_d,
